@@ -98,22 +98,27 @@ def build(facts):
             path.oblige("pre.shape", z3.And(U.is_node(t), shape(t), holder["wt"](t)))
             # range of itype (inductive: every non-recursive case returns one of these constants and the
             # recursive cases return itype of a sub-term) -- checked below when the summary is built
-            path.assume_fact(z3.Or(*[r == v for v in rng["values"]]))
+            path.assume_fact(z3.Or(U.is_tag("NoneV", r), U.is_tag("ClsV", r)))
         return E.from_pv(r)
     E.contracts["odata_query.typing.infer_type"] = infer_contract
     _, cases = finish()
     vals, ok = {}, True
+
+    def leaves(v):
+        v = z3.simplify(v)
+        if z3.is_app(v) and v.decl().kind() == z3.Z3_OP_ITE:
+            return leaves(v.arg(1)) + leaves(v.arg(2))
+        return [v]
     for cond, val in cases:
-        v = z3.simplify(val)
-        if z3.is_app(v) and v.decl().eq(itype.uf):
-            continue
-        if U.ctor_name(v) == "ExtV":
-            continue                      # error marker: excluded by the precondition (family `summary`)
-        if U.ctor_name(v) in ("NoneV", "ClsV") and all(z3.is_int_value(v.arg(i)) or True for i in range(v.num_args())) \
-                and not [x for x in _consts(v)]:
-            vals[v.get_id()] = v
-        else:
-            ok = False
+        for v in leaves(val):
+            if z3.is_app(v) and v.decl().eq(itype.uf):
+                continue
+            if U.ctor_name(v) == "ExtV":
+                continue                      # error marker: excluded by the precondition (family `summary`)
+            if U.ctor_name(v) in ("NoneV", "ClsV"):
+                vals[v.get_id()] = v
+            else:
+                ok = False
     rng["values"] = list(vals.values()) if ok else None
     rng["done"] = True
     if not ok:
